@@ -10,7 +10,7 @@
      with the fmt selected by the magic read at e_lfanew+24.
    - JSON: a serialized computed detail equals the accessor SectionHeaders::by_rva;
      an `.ok()` field is null exactly when the accessor returns an error. *)
-From PV.Model Require Import Machine Mapping Views Headers Wrap.
+From PV.Model Require Import Machine Mapping Views Headers Wrap Json.
 From PV.Spec Require Import HeaderSpec.
 
 (* the variant the property text prescribes; None = the constructor must fail *)
@@ -51,4 +51,45 @@ Definition null_ok {A} (accessor : res A) (json_null : bool) : bool :=
   | Ok _ => negb json_null
   | Err _ => json_null
   | Fault _ => false
+  end.
+
+(* ---- the serialized text (second round) ----
+   "Serializing any accepted image succeeds, produces well-formed JSON, and each serialized field
+   equals the value the corresponding accessor returns": the oracle evaluated on the text the
+   implementation produced.  [text] must be accepted by the validator of Model/Json.v, it must be
+   the canonical compact print of the tree it denotes (so the tree loses nothing), and that tree
+   without the one member the model does not cover ("resources") must be the model's tree, which
+   is built from the accessors (Model/WrapJson.v). *)
+Definition k_resources : list N := [114; 101; 115; 111; 117; 114; 99; 101; 115].
+Definition drop_member (k : list N) (j : json) : json :=
+  match j with
+  | JObj l => JObj (filter (fun kv => negb (list_eqb (fst kv) k)) l)
+  | _ => j
+  end.
+Definition json_text_ok (model : res json) (text : list N) : bool :=
+  match parse_json text, model with
+  | Some j, Ok jm => list_eqb (print_json j) text && list_eqb (print_json (drop_member k_resources j)) (print_json jm)
+  | _, _ => false
+  end.
+
+(* ---- UTF-8 (RFC 3629), declaratively: a sequence of well-formed 1..4 byte encodings - no overlong forms, no
+   surrogates, nothing above U+10FFFF.  RFC 8259 section 8.1 requires JSON text to be UTF-8. ---- *)
+Inductive utf8 : list N -> Prop :=
+| u_nil : utf8 []
+| u_1 b t : b < 128 -> utf8 t -> utf8 (b :: t)
+| u_2 b0 b1 t : 194 <= b0 <= 223 -> cont b1 = true -> utf8 t -> utf8 (b0 :: b1 :: t)
+| u_3 b0 b1 b2 t : 224 <= b0 <= 239 -> cont b1 = true -> cont b2 = true ->
+    (b0 = 224 -> 160 <= b1) -> (b0 = 237 -> b1 <= 159) -> utf8 t -> utf8 (b0 :: b1 :: b2 :: t)
+| u_4 b0 b1 b2 b3 t : 240 <= b0 <= 244 -> cont b1 = true -> cont b2 = true -> cont b3 = true ->
+    (b0 = 240 -> 144 <= b1) -> (b0 = 244 -> b1 <= 143) -> utf8 t -> utf8 (b0 :: b1 :: b2 :: b3 :: t).
+
+
+(* every string and every key of a value is valid UTF-8 *)
+Fixpoint json_utf8 (j : json) : Prop :=
+  match j with
+  | JStr s => utf8 s
+  | JArr l => (fix go (l : list json) : Prop := match l with [] => True | x :: t => json_utf8 x /\ go t end) l
+  | JObj l => (fix go (l : list (list N * json)) : Prop :=
+                 match l with [] => True | (k, v) :: t => utf8 k /\ json_utf8 v /\ go t end) l
+  | _ => True
   end.
